@@ -20,6 +20,7 @@ private:
     Goldilocks::Element *r;
     Goldilocks::Element *r_;
     int extension;
+    u_int64_t rSize = 0;
 
     static u_int32_t log2(u_int64_t size)
     {
@@ -153,6 +154,15 @@ public:
     inline void computeR(int N)
     {
         u_int64_t domainPow = log2(N);
+        if (r != NULL)
+        {
+            delete[] r;
+        }
+        if (r_ != NULL)
+        {
+            delete[] r_;
+        }
+        rSize = N;
         r = new Goldilocks::Element[N];
         r_ = new Goldilocks::Element[N];
         r[0] = Goldilocks::one();
